@@ -68,6 +68,8 @@ pub fn attrs(pairs: &[(&str, &str)]) -> BTreeMap<String, String> {
 pub struct Ctx {
     pub prop: String,
     pub shard: String,
+    /// the shard name the worker was started with (checks that delegate rewrite `shard`)
+    pub shard0: String,
     pub tier: String,
     pub only: Option<u64>,
     pub from: u64,
@@ -87,6 +89,7 @@ impl Ctx {
         Ctx {
             prop: prop.into(),
             shard: shard.into(),
+            shard0: shard.into(),
             tier: tier.into(),
             only,
             from,
@@ -187,7 +190,7 @@ impl Ctx {
             return;
         }
         let g = self.group.saturating_sub(1);
-        let v = json!({"attrs": attrs, "case": case, "msg": msg, "group": g, "shard": self.shard, "property": self.prop, "tier": self.tier});
+        let v = json!({"attrs": attrs, "case": case, "msg": msg, "group": g, "shard": self.shard0, "property": self.prop, "tier": self.tier});
         let mut out = std::io::stdout().lock();
         let _ = writeln!(out, "V {v}");
         let _ = out.flush();
